@@ -52,8 +52,10 @@ def main():
     ap.add_argument("--seed", default="1")
     ap.add_argument("--with-tests", action="store_true", help="also run the repository's tests on the copy")
     ap.add_argument("--keep-going", action="store_true", default=True)
+    ap.add_argument("--write-results", action="store_true", help="write selftest/RESULTS.md")
     args = ap.parse_args()
     failed = []
+    rows = []
     for name, props, patch in collect(args.filters):
         tmp, dst = scratch_copy()
         try:
@@ -78,6 +80,8 @@ def main():
                 ok = c.returncode == 1 and viol
                 print("%-55s %s %s  %s" % (name, prop, "CAUGHT" if ok else "MISSED (exit %d)" % c.returncode,
                                            detail[0].strip()[:150] if detail else ""))
+                rows.append((name, prop, "caught" if ok else "MISSED", (detail[0].strip()[:110] if detail else ""),
+                             locals().get("tail", "") if args.with_tests else ""))
                 if not ok:
                     failed.append("%s/%s" % (name, prop))
                     tailtxt = "\n".join(c.stdout.splitlines()[-4:])
@@ -85,6 +89,16 @@ def main():
         finally:
             shutil.rmtree(tmp, ignore_errors=True)
     print("selftest: %d missed" % len(failed))
+    if args.write_results:
+        with open(os.path.join(HERE, "RESULTS.md"), "w") as fp:
+            fp.write("# Seeded breaks against the checks (tier %s, seed %s)\n\n" % (args.tier, args.seed))
+            fp.write("Written by `selftest/run.py --write-results`: every patch is applied to a scratch copy of /repo, the named\n"
+                     "check is run with `--repo <copy>`; *caught* = exit 1 with a VIOLATION line. `seeded/...` entries were written by\n"
+                     "independent sub-agents that saw only the property text.\n\n")
+            fp.write("| seeded change | check | result | first monitor that fired | repository tests with the change |\n|---|---|---|---|---|\n")
+            for name, prop, result, first, tests in rows:
+                fp.write("| %s | %s | %s | %s | %s |\n" % (name, prop, result, first.replace("|", "/"), tests.replace("|", "/")))
+            fp.write("\n%d seeded changes x checks, %d missed.\n" % (len(rows), len(failed)))
     return 1 if failed else 0
 
 
